@@ -15,7 +15,7 @@ META = {
                  "64 KiB / 65551 / 128 KiB boundaries x every front-end), a grid of trailing garbage runs of 7..9/15..17/19..21/35/36/39..41 "
                  "bytes behind 0/1/2/5 messages x both framings x every front-end, seeded random "
                  "streams and the repository's .dlt files run through the real DltMessageIterator (over slice, Cursor and "
-                 "LowMarkBufReader), every recorded run validated by TLC against the contract FramingTrace.tla whose header carries "
+                 "LowMarkBufReader, each with and without a logger attached), every recorded run validated by TLC against the contract FramingTrace.tla whose header carries "
                  "the generator's ground truth",
     "design_ref": "DESIGN.md section 6, C01",
     "level_text": "Exhaustive within bounds on the model (all segment sequences <= 4(5) segments / 9(12) tokens, both framings, with and "
@@ -141,6 +141,9 @@ def check(ctx):
     ctx.extra["trace_events_by_kind"] = kinds
     ctx.extra["long_garbage_cases"] = info["long_garbage"]
     ctx.extra["trailing_garbage_grid_cases"] = info["tail_grid_cases"]
+    ctx.extra["cases_with_logger_attached"] = info["cases_with_logger"]
+    if info["cases_with_logger"] == 0 and not ctx.violations:
+        raise c.ToolError("vacuity: no case ran the iterator with a logger attached")
     ctx.extra["repository_files"] = info["files"]
     ctx.extra["trace_events"] = info["lines"]
     if ctx.violations:
